@@ -32,7 +32,19 @@ Theorem C06_failed_is_final : forall D (feed : D -> bytes -> D * bytes) R cfg (s
   exists q', s_queue (run feed cfg sched s) = s_queue s ++ q'.
 Proof. intros D feed R cfg sched s. apply finished_run. Qed.
 
+From Scrapli Require Import Network ChanTrace ChanTraceLemmas.
+
+(* for every channel operation: a path on which a read was handed a connection / transport error ends with that error (never a success), and it is the last thing that happens *)
+Theorem C06_loss_is_error : forall (p : prog bytes) (cfg : chan_cfg) (t : list obs) (r : bytes + err) (c : cond) (e : err), chan_op p cfg -> ctrace cfg p t r -> In (OErr c e) t -> e = EConnection \/ e = ETransport -> r = inr e /\ (forall x : bytes, r <> inl x).
+Proof. exact @loss_is_error. Qed.
+
+(* under an implicit privilege change the loss is reported as a privilege error *)
+Theorem C06_loss_under_implicit_acquire : forall (net : netcfg) (cached : bytes) (t : list obs) (r : bytes + err) (c : cond) (e : err), ctrace (n_chan net) (acquire_default net cached) t r -> In (OErr c e) t -> r = inr EPrivilege /\ (exists t0 : list obs, t = t0 ++ [OErr c e]).
+Proof. exact @loss_under_acquire_default. Qed.
+
 Print Assumptions C06_eof_fails_read.
 Print Assumptions C06_ioerr_fails_read.
 Print Assumptions C06_eof_is_permanent.
 Print Assumptions C06_failed_is_final.
+Print Assumptions C06_loss_is_error.
+Print Assumptions C06_loss_under_implicit_acquire.
